@@ -2,9 +2,9 @@
 (* C17, second half: the NameEntry merge algebra and the five Update*Name sources.
 
    Mode "pairs": every pair (e, n) of name entries over the attributes Name, Model, OS, Manufacturer
-   with values {"", a, A, b} (A is the upper-case spelling of a: a distinct value that differs only in
-   letter case; ValSet "full" adds "a." , the same name with a trailing dot) is one initial state; the lemmas NoErase, ChangeIff, Idempotent are
-   invariants (checked by TLC on all 4^4 * 4^4 = 65536 pairs) and each pair is exported with the
+   with values {"", a, b} and near-equal variants of a (other letter case, trailing blank, blank only;
+   ValSet "full" adds trailing tab, CR LF and dot; at most one variant per entry) is one initial state; the lemmas NoErase, ChangeIff, Idempotent are
+   invariants (checked by TLC on all 405 * 405 = 164025 pairs; 729 * 729 with ValSet "full") and each pair is exported with the
    reference result.
 
    Mode "hosts": two hosts of one MAC address, five naming sources.  Actions: Update(h, s, n)
@@ -21,8 +21,14 @@ CONSTANTS Mode,       \* "pairs" | "hosts"
           ValSet      \* "small" | "full": the attribute values
 
 Attrs  == {"Name", "Model", "OS", "Manufacturer"}
-Vals   == {"", "a", "A", "b"} \cup (IF ValSet = "full" THEN {"a."} ELSE {})
-Entry  == [Attrs -> Vals]
+\* Values are tokens; the driver spells them: a = "host-a", b = "host-b", and the near-equal variants of a:
+\* A = other letter case, a_sp = trailing blank, sp = one blank only (a non-empty value!), a_tab = trailing tab,
+\* a_crlf = trailing CR LF, a. = trailing dot.  An entry has at most one attribute with a near-equal variant
+\* (the attributes are merged independently; they interact only through the modified flag).
+Base   == {"", "a", "b"}
+Exotic == {"A", "a_sp", "sp"} \cup (IF ValSet = "full" THEN {"a_tab", "a_crlf", "a."} ELSE {})
+Vals   == Base \cup Exotic
+Entry  == {e \in [Attrs -> Vals] : Cardinality({x \in Attrs : e[x] \in Exotic}) <= 1}
 Empty  == [x \in Attrs |-> ""]
 Hosts  == {"h1", "h2"}
 Srcs   == {"DHCP4", "MDNS", "SSDP", "LLMNR", "NBNS"}
@@ -45,8 +51,8 @@ VARIABLES pe, pn,                       \* pairs mode
 vars == <<pe, pn, host, mac, dirty, known, changed, depth, hist>>
 
 E(n, mo, os, ma) == [x \in Attrs |-> CASE x = "Name" -> n [] x = "Model" -> mo [] x = "OS" -> os [] OTHER -> ma]
-Updates == {E("a", "", "", ""), E("A", "", "", ""), E("b", "", "", ""), E("", "a", "", ""), E("a", "", "b", "a")}
-           \cup (IF UpdSet = "full" THEN {Empty, E("", "", "", "b"), E("", "A", "", "")} ELSE {})
+Updates == {E("a", "", "", ""), E("A", "", "", ""), E("a_sp", "", "", ""), E("", "a", "", ""), E("a", "", "b", "a")}
+           \cup (IF UpdSet = "full" THEN {Empty, E("sp", "", "", ""), E("b", "", "", "")} ELSE {})
 Slots0 == [s \in Srcs |-> Empty]
 
 Init == /\ depth = 0 /\ hist = <<>>
